@@ -50,7 +50,28 @@ DecRecOK(r) ==
                 IF k = pos THEN r.re.payload[k] = (IF r.payload[k] = 0 THEN 0 ELSE 1)
                 ELSE r.re.payload[k] = r.payload[k]
 
-RecOK(r) == IF Has(r, "enc") THEN EncRecOK(r) ELSE DecRecOK(r)
+\* Corners of the domain C03 names (grids of 40000 markers, waveforms of 100000 points): the record carries the sizes,
+\* the payload length and the harness's verdict on the round trip instead of the bytes.  The format fixes the length.
+NOf(r, f) == IF Has(r.n, f) THEN r.n[f] ELSE 0
+BigLen(r) ==
+    CASE r.kind = "beat_data2" -> 33 + 24 * (NOf(r, "dflt") + NOf(r, "adj")) + NOf(r, "extra")
+      [] r.kind = "overview2" -> 27 + 3 * NOf(r, "pts") + NOf(r, "extra")
+      [] r.kind = "overview1" -> 27 + 3 * NOf(r, "pts")
+      [] r.kind = "beat_data1" -> 33 + 24 * (NOf(r, "dflt") + NOf(r, "adj"))
+      [] r.kind = "hires1" -> 30 + 6 * NOf(r, "pts")
+      [] OTHER -> -1
+BigEncodable(r) ==
+    CASE r.kind = "beat_data1" -> \A f \in {"dflt", "adj"} : NOf(r, f) = 0 \/ (NOf(r, f) >= 2 /\ NOf(r, f) <= 32768)
+      [] r.kind \in {"beat_data2", "overview2", "hires1", "overview1"} -> TRUE
+      [] OTHER -> FALSE
+BigRecOK(r) ==
+    IF BigEncodable(r) THEN
+        /\ r.enc.out = "ok" /\ r.enc.framed
+        /\ r.plen = BigLen(r) /\ r.prefix_ok
+        /\ r.dec.out = "ok" /\ r.same
+    ELSE r.enc.out = "throw" /\ r.enc.std
+
+RecOK(r) == IF Has(r, "big") THEN BigRecOK(r) ELSE IF Has(r, "enc") THEN EncRecOK(r) ELSE DecRecOK(r)
 
 TInit == l = 1
 TNext == l <= Len(Log) /\ RecOK(Log[l]) /\ l' = l + 1
